@@ -1,11 +1,14 @@
 /-
   C17 — Lazy row streams obey the constraint normal form and are never consumed.
   Property statements only; the simulation proof is in `Proofs/IterData*.lean`.
-  Model: `PydapModel/IterData.lean` (`IterData`/`CSVData` of handlers/lib.py and handlers/csv, flat tables).
+  Model: `PydapModel/IterData.lean` (`IterData`/`CSVData` of handlers/lib.py and handlers/csv, flat tables);
+  `PydapModel/IterNest.lean` (`IterData` over tables with one nested sequence level; section "one nested level").
 -/
 import PydapModel.IterData
 import PydapModel.TableVal
 import Proofs.IterDataSim
+import PydapModel.IterNest
+import Proofs.IterNestSim
 namespace Pydap.C17
 open Pydap Pydap.IterData
 
@@ -142,5 +145,163 @@ example : ∃ s', getitem litVal (mkIterData exSrc ⟨['s'], exAll, exAll⟩)
     (.cond ⟨['s', '.', 'i'], .gt, ['1']⟩) = .ok s' ∧ s'.ifilter.length = 1 := ⟨_, rfl, rfl⟩
 
 end NonVacuity
+
+
+/-! ## one nested level -/
+
+section Nested
+open Pydap.IterNest
+
+/-- The property on tables with one nested sequence level, parametrised by the reference used:
+    `strict = false` is the property as stated (clauses are accepted wherever the items are records: on
+    the outer table and on an inner table reached by a child selection); `strict = true` accepts
+    clauses only while the template is the outer sequence. -/
+def NestedNormalForm (strict : Bool) : Prop :=
+  ∀ (A : Type) (cmp : Op → A → A → Bool) (lit : List Char → Option A)
+    (id : Name) (hdr : Hdr), wsHdr hdr = true →
+    ∀ (src : List (List (NCell A))), (∀ r ∈ src, wsRow hdr r = true) →
+    ∀ (ops : List Key) (st : IterNest.Ref A),
+      IterNest.refRun strict lit id hdr ⟨[], [], .table hdr.names, []⟩ ops = some st →
+      ∃ s, IterNest.chain lit (IterNest.mkIterData src id hdr) ops = .ok s
+        ∧ s.src = src
+        ∧ IterNest.iter cmp s = IterNest.refEval cmp hdr st src
+
+/-- **Normal form with one nested level (partial: no clause after a child selection into the nested
+    sequence).**  Any header with distinct names whose children are base columns or sequences of
+    base columns, any well-shaped source, any chain of clauses (on outer base columns, or on the
+    columns of a nested sequence: `id.n.x OP id.n.y | literal`), column lists, child selections (into
+    base children, into a nested sequence, and then into its columns), integer and slice keys that
+    the by-name reference accepts: every `__getitem__` succeeds and iteration yields the source rows
+    filtered by the outer clauses, the records of each nested sequence filtered by the clauses on it,
+    the selections applied by name in order, then the slices in order. -/
+theorem C17_nested_normal_form_partial : NestedNormalForm true := by
+  intro A cmp lit id hdr hh src hsrc ops st href
+  obtain ⟨s, h1, hrel, hs⟩ := IterNest.chain_sim hh ops _ _ st (IterNest.rel_init cmp id hdr hh src) href
+  have hsrc' : s.src = src := by rw [hs]; rfl
+  exact ⟨s, h1, hsrc', by rw [← hsrc']; exact IterNest.iter_of_rel hrel (by rw [hsrc']; exact hsrc)⟩
+
+def okListing (r : Except Err (List (IterNest.Item TableVal.Val))) (expect : List (IterNest.Item TableVal.Val)) : Bool :=
+  match r with
+  | .ok l => l == expect
+  | .error _ => false
+
+open Pydap.TableVal in
+/-- **The full statement fails on the code as it is** (finding C17.filter_after_inner_child):
+    `D["n"][CE("s.n.x>10")]` over `s{i, n{x, y}}` evaluates the clause on the outer source rows with the
+    index of `x` (so it compares `i`) and lists nothing, where the normal form lists the records of `n`
+    with `x > 10` for every outer row (what `D[CE("s.n.x>10")]["n"]` lists). -/
+theorem C17_nested_normal_form_refuted : ¬ NestedNormalForm false := by
+  intro h
+  obtain ⟨s, h1, _, h3⟩ := h Val cmpVal litVal ['s'] [(['i'], none), (['n'], some [['x'], ['y']])] (by decide)
+    [[.base (.num 16), .seq [[.num 160, .str ['a']], [.num 176, .str ['b']]]],
+     [.base (.num 32), .seq [[.num 480, .str ['c']]]]]
+    (by decide)
+    [.str ['n'], .cond ⟨['s', '.', 'n', '.', 'x'], .gt, ['1', '0']⟩]
+    ⟨[], [(['n'], ⟨['x'], .gt, .const (.num 160)⟩)], .innerTable ['n'] [['x'], ['y']], []⟩
+    rfl
+  have hs : (IterNest.chain litVal (IterNest.mkIterData
+      [[.base (.num 16), .seq [[.num 160, .str ['a']], [.num 176, .str ['b']]]],
+       [.base (.num 32), .seq [[.num 480, .str ['c']]]]] ['s'] [(['i'], none), (['n'], some [['x'], ['y']])])
+      [.str ['n'], .cond ⟨['s', '.', 'n', '.', 'x'], .gt, ['1', '0']⟩] >>= fun s => IterNest.iter cmpVal s)
+      = .ok [.inner [[.num 176, .str ['b']]], .inner [[.num 480, .str ['c']]]] := by
+    rw [h1]
+    exact h3
+  have hyes : okListing (IterNest.chain litVal (IterNest.mkIterData
+      [[.base (.num 16), .seq [[.num 160, .str ['a']], [.num 176, .str ['b']]]],
+       [.base (.num 32), .seq [[.num 480, .str ['c']]]]] ['s'] [(['i'], none), (['n'], some [['x'], ['y']])])
+      [.str ['n'], .cond ⟨['s', '.', 'n', '.', 'x'], .gt, ['1', '0']⟩] >>= fun s => IterNest.iter cmpVal s)
+      [.inner [[.num 176, .str ['b']]], .inner [[.num 480, .str ['c']]]] = true := by
+    rw [hs]; decide
+  exact absurd hyes (by decide)
+
+/-- **Each step returns a new stream that only extends the recorded pipeline**, nested tables
+    included: the source rows, the sequence id and the header are shared, the filter, map and slice
+    lists of the result have those of the operand as prefixes. -/
+theorem C17_nested_pure (lit : List Char → Option A) (s s' : IterNest.Stream A) (k : Key)
+    (h : IterNest.getitem lit s k = .ok s') :
+    s'.src = s.src ∧ s'.id = s.id ∧ s'.hdr = s.hdr ∧
+      s.ifilter <+: s'.ifilter ∧ s.imap <+: s'.imap ∧ s.islice <+: s'.islice := by
+  cases k with
+  | str key =>
+    simp only [IterNest.getitem] at h
+    split at h
+    · cases h
+    · split at h
+      · cases h
+      · split at h
+        · cases h
+        · simp only [Except.ok.injEq] at h
+          subst h
+          exact ⟨rfl, rfl, rfl, List.prefix_refl _, List.prefix_append _ _, List.prefix_refl _⟩
+    · split at h
+      · cases h
+      · simp only [Except.ok.injEq] at h
+        subst h
+        exact ⟨rfl, rfl, rfl, List.prefix_refl _, List.prefix_append _ _, List.prefix_refl _⟩
+  | list keys =>
+    simp only [IterNest.getitem] at h
+    split at h
+    · cases h
+    · split at h
+      · cases h
+      · simp only [Except.ok.injEq] at h
+        subst h
+        exact ⟨rfl, rfl, rfl, List.prefix_refl _, List.prefix_append _ _, List.prefix_refl _⟩
+    · split at h
+      · cases h
+      · simp only [Except.ok.injEq] at h
+        subst h
+        exact ⟨rfl, rfl, rfl, List.prefix_refl _, List.prefix_append _ _, List.prefix_refl _⟩
+  | int i =>
+    simp only [IterNest.getitem, Except.ok.injEq] at h
+    subst h
+    exact ⟨rfl, rfl, rfl, List.prefix_refl _, List.prefix_refl _, List.prefix_append _ _⟩
+  | slice sl =>
+    simp only [IterNest.getitem, Except.ok.injEq] at h
+    subst h
+    exact ⟨rfl, rfl, rfl, List.prefix_refl _, List.prefix_refl _, List.prefix_append _ _⟩
+  | cond c =>
+    simp only [IterNest.getitem] at h
+    cases hb : IterNest.buildFilter lit s.id s.hdr c s.template with
+    | error e => simp [hb, bind, Except.bind] at h
+    | ok p =>
+      simp [hb, bind, Except.bind, pure, Except.pure] at h
+      subst h
+      exact ⟨rfl, rfl, rfl, List.prefix_append _ _, List.prefix_append _ _, List.prefix_refl _⟩
+
+/-! ### non-vacuity (nested) -/
+open Pydap.TableVal
+
+def exHdr : Hdr := [(['i'], none), (['n'], some [['x'], ['y']]), (['t'], none)]
+def exNSrc : List (List (NCell Val)) :=
+  [[.base (.num 16), .seq [[.num 160, .str ['a']], [.num 176, .str ['b']]], .base (.str ['p'])],
+   [.base (.num 32), .seq [], .base (.str ['q'])],
+   [.base (.num 48), .seq [[.num 480, .str ['c']]], .base (.str ['r'])]]
+/-- `D[["t","n"]][s.n.x>10][s.i>1]["n"][["y"]]["y"][0:5]` -/
+def exNOps : List Key :=
+  [.list [['t'], ['n']], .cond ⟨['s', '.', 'n', '.', 'x'], .gt, ['1', '0']⟩, .cond ⟨['s', '.', 'i'], .gt, ['1']⟩,
+   .str ['n'], .list [['y']], .str ['y'], .slice ⟨some 0, some 5, none⟩]
+
+def nlistingIs (r : Except Err (IterNest.Stream Val)) (expect : List (IterNest.Item Val)) : Bool :=
+  match r with
+  | .ok s => match IterNest.iter cmpVal s with
+    | .ok l => l == expect
+    | .error _ => false
+  | .error _ => false
+
+/-- the hypotheses of `C17_nested_normal_form_partial` are inhabited by a program with a nested and an
+    outer filter, a column list, the child selection into the nested sequence and into its column -/
+example : wsHdr exHdr = true ∧ (∀ r ∈ exNSrc, wsRow exHdr r = true)
+    ∧ (IterNest.refRun true litVal ['s'] exHdr ⟨[], [], .table exHdr.names, []⟩ exNOps).isSome = true
+    ∧ nlistingIs (IterNest.chain litVal (IterNest.mkIterData exNSrc ['s'] exHdr) exNOps)
+        [.innerCol [], .innerCol [.str ['c']]] = true := by
+  refine ⟨by decide, by decide, by decide, by decide⟩
+
+/-- `C17_nested_pure` is not vacuous: a nested filter step succeeds and extends both lists -/
+example : ∃ s', IterNest.getitem litVal (IterNest.mkIterData exNSrc ['s'] exHdr)
+    (.cond ⟨['s', '.', 'n', '.', 'x'], .gt, ['1', '0']⟩) = .ok s' ∧ s'.ifilter.length = 1 ∧ s'.imap.length = 2 :=
+  ⟨_, rfl, rfl, rfl⟩
+
+end Nested
 
 end Pydap.C17
